@@ -59,8 +59,8 @@ func (f Form) Scale(k int64) Form {
 	return g
 }
 
-func (f Form) Neg() Form        { return f.Scale(-1) }
-func (f Form) Sub(o Form) Form  { return f.Add(o.Neg()) }
+func (f Form) Neg() Form         { return f.Scale(-1) }
+func (f Form) Sub(o Form) Form   { return f.Add(o.Neg()) }
 func (f Form) AddK(k int64) Form { return f.Add(Const(k)) }
 
 func (f Form) IsConst() bool { return len(f.Coef) == 0 }
